@@ -13,11 +13,25 @@ for d in sorted(glob.glob(os.path.join(V, 'seeded', '*'))):
         m = {}
     ev = open(os.path.join(d, 'eval.txt')).read() if os.path.exists(os.path.join(d, 'eval.txt')) else ''
     prop = name.split('-')[0]
+    adv = name.startswith('adv')
     m['property'] = m.get('property', prop)
     m['id'] = name
-    m['round'] = 2 if '-r2-' in name else 1
-    m['origin'] = ('written by a fresh sub-agent that was given only the text of property %s and a scratch '
-                   'git worktree of /repo (nothing from /verif)' % prop)
+    m['round'] = 3 if adv else (2 if '-r2-' in name else 1)
+    if adv:
+        claimed = sorted(set(re.findall(r'C\d\d', str(m['property']))))
+        prop = ' '.join(claimed)
+        m['origin'] = ('adversarial round: written by a fresh sub-agent that was given the texts of all twenty properties '
+                       'and a scratch git worktree of /repo (nothing from /verif), asked for changes that a '
+                       'model-plus-differential-testing checker would be least likely to notice; it chose the properties itself')
+    else:
+        m['origin'] = ('written by a fresh sub-agent that was given only the text of property %s and a scratch '
+                       'git worktree of /repo (nothing from /verif)' % prop)
+    if os.path.exists(os.path.join(d, 'eval-before-strengthening.txt')):
+        before = open(os.path.join(d, 'eval-before-strengthening.txt')).read()
+        m['detection_history'] = {
+            'first_run': {mm.group(1): int(mm.group(2)) for mm in re.finditer(r'check (C\d+): exit (\d+) ::', before)},
+            'note': 'not detected by the claimed checks on the first run; detected after the harness was strengthened '
+                    '(DESIGN.md section 7.1); eval.txt is the run after strengthening'}
     conf = {'ran': 'tools/seed_eval.sh %s seeded/%s  (rsync copy of /repo + patch; pytest suite; demo.py with and '
                    'without the change; ./check <id> quick with NETADDR_REPO=<copy>)' % (prop, name)}
     s = re.search(r'suite: ([^|]*)\| demo with change: exit (\d+) \| demo without: exit (\d+)', ev)
